@@ -785,6 +785,13 @@ func (w *c05World) adminOp(kind string, i int, r *rand.Rand) {
 		w.adminOp(c05AdminOps[r.IntN(len(c05AdminOps)-1)], i, r)
 	case "access_set":
 		body := fmt.Sprintf(`{"allowed_clients":[],"disallowed_clients":["10.9.%d.1","bad-client-%d"],"blocked_hosts":["blockedhost%d.example","version.bind"]}`, i%200, i%7, i%5)
+		switch i % 4 {
+		case 1:
+			// the minimal valid bodies: optional fields left out / null
+			body = `{}`
+		case 3:
+			body = fmt.Sprintf(`{"disallowed_clients":["10.8.%d.1"],"blocked_hosts":null}`, i%200)
+		}
 		w.call("POST", "/control/access/set", body)
 		if i%5 == 0 {
 			w.call("GET", "/control/access/list", "")
@@ -805,7 +812,14 @@ func (w *c05World) adminOp(kind string, i int, r *rand.Rand) {
 			w.storage.RemoveByName(context.Background(), name)
 		}
 	case "set_rules":
-		w.call("POST", "/control/filtering/set_rules", fmt.Sprintf(`{"rules":["||user-blocked.example^","||r%d.example^","@@||ok%d.example^"]}`, i, i))
+		switch i % 5 {
+		case 1:
+			w.call("POST", "/control/filtering/set_rules", `{}`)
+		case 3:
+			w.call("POST", "/control/filtering/set_rules", `{"rules":[]}`)
+		default:
+			w.call("POST", "/control/filtering/set_rules", fmt.Sprintf(`{"rules":["||user-blocked.example^","||r%d.example^","@@||ok%d.example^"]}`, i, i))
+		}
 		if i%3 == 0 {
 			w.call("GET", "/control/filtering/status", "")
 		}
@@ -833,18 +847,41 @@ func (w *c05World) adminOp(kind string, i int, r *rand.Rand) {
 		if on {
 			ids = `["youtube","facebook"]`
 		}
-		w.call("PUT", "/control/blocked_services/update", `{"ids":`+ids+`,"schedule":{"time_zone":"UTC"}}`)
+		// the body varies: schedule present / absent / null / with a range,
+		// ids empty / non-empty / absent; and the legacy endpoint
+		switch i % 6 {
+		case 0:
+			w.call("PUT", "/control/blocked_services/update", `{"ids":`+ids+`,"schedule":{"time_zone":"UTC"}}`)
+		case 1:
+			w.call("PUT", "/control/blocked_services/update", `{"ids":`+ids+`}`)
+		case 2:
+			w.call("PUT", "/control/blocked_services/update", `{"ids":`+ids+`,"schedule":null}`)
+		case 3:
+			w.call("PUT", "/control/blocked_services/update", `{"schedule":{"time_zone":"UTC","mon":{"start":0,"end":3600000}}}`)
+		case 4:
+			w.call("PUT", "/control/blocked_services/update", `{}`)
+		default:
+			w.call("POST", "/control/blocked_services/set", ids)
+		}
 		w.call("GET", "/control/blocked_services/get", "")
 	case "protection_pause":
 		if on {
 			// pause for 1 ms: the re-enable timer worker fires right away
 			w.call("POST", "/control/protection", `{"enabled":false,"duration":1}`)
 		} else {
-			w.call("POST", "/control/protection", `{"enabled":true,"duration":0}`)
+			if i%4 == 1 {
+				w.call("POST", "/control/protection", `{"enabled":true}`)
+			} else {
+				w.call("POST", "/control/protection", `{"enabled":true,"duration":0}`)
+			}
 		}
 		w.call("GET", "/control/dns_info", "")
 	case "safesearch":
-		w.call("PUT", "/control/safesearch/settings", fmt.Sprintf(`{"enabled":%v,"bing":true,"duckduckgo":true,"ecosia":true,"google":%v,"pixabay":true,"yandex":true,"youtube":true}`, on || i%4 != 1, on))
+		if i%3 == 1 {
+			w.call("PUT", "/control/safesearch/settings", fmt.Sprintf(`{"enabled":%v}`, on))
+		} else {
+			w.call("PUT", "/control/safesearch/settings", fmt.Sprintf(`{"enabled":%v,"bing":true,"duckduckgo":true,"ecosia":true,"google":%v,"pixabay":true,"yandex":true,"youtube":true}`, on || i%4 != 1, on))
+		}
 		w.call("GET", "/control/safesearch/status", "")
 	case "safebrowsing_parental":
 		if on {
@@ -856,7 +893,11 @@ func (w *c05World) adminOp(kind string, i int, r *rand.Rand) {
 		}
 		w.call("GET", "/control/safebrowsing/status", "")
 	case "querylog_config":
-		w.call("PUT", "/control/querylog/config/update", fmt.Sprintf(`{"enabled":true,"anonymize_client_ip":%v,"interval":%d,"ignored":["ignored.example","ign%d.example"]}`, on, 24*3600*1000, i%3))
+		if i%3 == 1 {
+			w.call("PUT", "/control/querylog/config/update", fmt.Sprintf(`{"enabled":true,"anonymize_client_ip":%v}`, on))
+		} else {
+			w.call("PUT", "/control/querylog/config/update", fmt.Sprintf(`{"enabled":true,"anonymize_client_ip":%v,"interval":%d,"ignored":["ignored.example","ign%d.example"]}`, on, 24*3600*1000, i%3))
+		}
 		if i%4 == 0 {
 			w.call("POST", "/control/querylog_clear", "")
 		}
@@ -873,7 +914,11 @@ func (w *c05World) adminOp(kind string, i int, r *rand.Rand) {
 	case "querylog_read":
 		w.call("GET", "/control/querylog?limit=20", "")
 	case "stats_config":
-		w.call("PUT", "/control/stats/config/update", fmt.Sprintf(`{"enabled":true,"interval":%d,"ignored":["ign%d.example"]}`, []int{24, 168}[i%2]*3600*1000, i%3))
+		if i%3 == 1 {
+			w.call("PUT", "/control/stats/config/update", fmt.Sprintf(`{"enabled":true,"interval":%d}`, []int{24, 168}[i%2]*3600*1000))
+		} else {
+			w.call("PUT", "/control/stats/config/update", fmt.Sprintf(`{"enabled":true,"interval":%d,"ignored":["ign%d.example"]}`, []int{24, 168}[i%2]*3600*1000, i%3))
+		}
 		if i%4 == 0 {
 			w.call("POST", "/control/stats_reset", "")
 		}
@@ -891,7 +936,14 @@ func (w *c05World) adminOp(kind string, i int, r *rand.Rand) {
 	case "dns_config":
 		// not on the property's list of operations, but also a setting changed
 		// through the admin API while queries are served
-		w.call("POST", "/control/dns_config", fmt.Sprintf(`{"dnssec_enabled":%v,"disable_ipv6":%v,"blocking_mode":"default"}`, on, !on))
+		switch i % 4 {
+		case 1:
+			w.call("POST", "/control/dns_config", `{}`)
+		case 3:
+			w.call("POST", "/control/dns_config", fmt.Sprintf(`{"dnssec_enabled":%v}`, on))
+		default:
+			w.call("POST", "/control/dns_config", fmt.Sprintf(`{"dnssec_enabled":%v,"disable_ipv6":%v,"blocking_mode":"default"}`, on, !on))
+		}
 	default:
 		panic("c05: unknown admin op " + kind)
 	}
